@@ -92,6 +92,7 @@ def replay_interp(rp, wd):
     words = [".".join(w) for w in case["word"]]
     b = os.path.join(wd, "case.batch")
     hdr = dict(case, chart=1)
+    hdr.setdefault("settle", 0)
     with open(b, "wb") as f:
         f.write(("CASE %d %s %s %d %d %d\n" % (case["case"], eng, case["mode"], len(words), len(rp["chart"]["vars"]), len(x))).encode())
         f.write(("H " + chartmod.dumps(hdr) + "\n").encode())
